@@ -704,7 +704,7 @@ public:
     nbfl = (int)mono.size() + c.nfex;
   }
   // field extension the library gives to its private copy of the model (KrigingSystem::_isCorrect):
-  // diagonal of the bounding box of all data and target coordinates.  Only the intrinsic structures use it
+  // diagonal of the bounding box of the ACTIVE data and target coordinates.  Only the intrinsic structures use it
   // (their generalised covariance is shifted by an even polynomial which authorised combinations filter).
   static double fieldOf(const KCase& c, const Db* dbout)
   {
@@ -712,9 +712,11 @@ public:
     for (int d = 0; d < c.ndim; d++)
     {
       double lo = 1e300, hi = -1e300;
-      for (int i = 0; i < c.n(); i++) { lo = std::min(lo, c.data.at(i, d)); hi = std::max(hi, c.data.at(i, d)); }
+      // (active samples only, on both sides: a masked sample does not extend the field — repaired in f869cc76e)
+      for (int i = 0; i < c.n(); i++) { if (!c.active(i)) continue; lo = std::min(lo, c.data.at(i, d)); hi = std::max(hi, c.data.at(i, d)); }
       for (int k = 0; k < dbout->getSampleNumber(); k++)
       {
+        if (!dbout->isActive(k)) continue;
         double v = dbout->getCoordinate(k, d);
         lo = std::min(lo, v);
         hi = std::max(hi, v);
